@@ -175,6 +175,39 @@ def usage_fallback(ctx, cfg, b, rule):
     ctx.ob(rule, 'run_subparser:usage-fallback-tests-pristine-state', ok,
            'the fallback_to_usage help is guarded by an emptiness test of the argument list taken before the inner parser ran (%d test(s)): %s' % (len(tests), ok), where=b.where(fb[0]) if fb else b.where(), cfg=cfg)
 
+    # ... and only replaces a FAILURE: when the inner parser succeeded (e.g. everything came from the environment or from
+    # defaults) an empty line yields the value, not the usage text
+    if len(ev) == 1:
+        def cm(w, c, store):
+            if c.bb == ev[0].bb:
+                return ('agg', 'std::result::Result', 'Ok', [('c', '<value>')])
+            return None
+        cm.first = True
+        w = Walker(b, call_model=cm, max_paths=3000, max_visits=2)
+        outs = set()
+        # the fallback site: where the short usage is built BEFORE the help/version lookup (version output is short too)
+        lookups = [c for c in b.calls() if c.is_(r'^<info::Info as Parser<info::ExtraParams>>::eval$')]
+        site = {i for i in fb if not any(b.reaches(c.bb, [i]) for c in lookups)}
+        try:
+            for p_ in w.run():
+                if site & set(p_.blocks):
+                    outs.add('Err(Stdout:usage-fallback)'); continue
+                if p_.end != 'return' or p_.ret is UNKNOWN or p_.ret[0] != 'agg':
+                    outs.add('?'); continue
+                if p_.ret[2] == 'Ok':
+                    outs.add('Ok')
+                else:
+                    e = p_.ret[3][0] if p_.ret[3] else UNKNOWN
+                    kind = e[2] if (e is not UNKNOWN and e[0] == 'agg') else '?'
+                    outs.add('Err(%s)' % kind)
+        except Broken:
+            outs.add('?')
+        ok2 = 'Err(Stdout:usage-fallback)' not in outs and 'Ok' in outs and bool(site)
+        # Stdout may still legitimately appear for --help/--version, which are only looked up after a failure: with a successful
+        # inner parser and nothing left over neither can happen, so Stdout must be absent altogether
+        ctx.ob(rule, 'run_subparser:usage-fallback-only-after-failure', ok2 and bool(outs),
+               'when the inner parser succeeds run_subparser returns %s: the usage text (Stdout) never replaces a value' % sorted(outs), where=b.where(), cfg=cfg)
+
 def info(ctx, cfg, fs):
     b = ctx.look(fs.one(r'^<info::Info as Parser<info::ExtraParams>>::eval$'))
     hp = [c for c in b.calls() if c.is_(r'^info::Info::mk_help_parser$')]
